@@ -265,14 +265,12 @@ def harness_build():
         shutil.copytree(src, HARNESS_DIR, ignore=shutil.ignore_patterns("Cargo.lock"))
         ct = open(os.path.join(HARNESS_DIR, "Cargo.toml")).read().replace('"/repo/', '"%s/' % REPO)
         open(os.path.join(HARNESS_DIR, "Cargo.toml"), "w").write(ct)
-        cc = open(os.path.join(HARNESS_DIR, ".cargo", "config.toml")).read().replace("/verif/target", TARGET)
-        open(os.path.join(HARNESS_DIR, ".cargo", "config.toml"), "w").write(cc)
     lock_src = os.path.join(REPO, "Cargo.lock")
     lock_dst = os.path.join(HARNESS_DIR, "Cargo.lock")
     if not os.path.exists(lock_dst) or open(lock_src).read() != open(lock_dst).read():
         shutil.copyfile(lock_src, lock_dst)
     t0 = time.time()
-    rc, o, e = sh(["cargo", "build", "--offline"], cwd=HARNESS_DIR, timeout=1800)
+    rc, o, e = sh(["cargo", "build", "--offline", "--target-dir", TARGET], cwd=HARNESS_DIR, timeout=1800)
     if rc != 0:
         raise Infra("harness build failed (does /repo compile?):\n" + e[-3000:])
     return time.time() - t0
